@@ -75,6 +75,11 @@ class C04(Prop):
             mon = drive.Mon(case.get('kind', 'ct'), {'text': text, 'vars': names})
             out = mon.evaluate(*drive.ct_args(sig, names))
         except Exception as e:
+            if all(x != x for x in exp.vs):
+                # the whole result is NaN-tainted (inf-inf): min/max/ordering on NaN are undetermined, and so is
+                # what an implementation's interval bookkeeping does with them
+                v.skip = 'raised on a completely NaN-tainted formula'
+                return v
             v.bad('raises:' + type(e).__name__, '%s signals=%s: evaluate raised %s: %s' % (
                 text, case['signals'], type(e).__name__, e),
                 findings.c04_attribution(f, sig, 'raises', None, type(e).__name__))
